@@ -95,7 +95,7 @@ def parse_cli_cases(path):
 
 def gen_cases(seed, tier):
     rng = gen.Rng(seed * 7 + 16)
-    n = 120 if tier == "quick" else 1500
+    n = 150 if tier == "quick" else 1500
     cases = []
     k = 0
     all_flags = ["", "c", "n", "h", "cn", "ch", "nh", "cnh"]
@@ -119,6 +119,21 @@ def gen_cases(seed, tier):
                 files = [] if via_stdin else [("in0.txt", body), ("in1.txt", body[: len(body) // 2])]
                 cases.append(CliCase(f"clif{k}", fl, None, pp, body, files, via_stdin))
                 k += 1
+    # occurrence shapes for the highlighter: one long occurrence covering several shorter ones that
+    # are separated by gaps, chains of occurrences that each start inside the previous one, an
+    # occurrence ending exactly where the line ends / starting at byte 0, multi-byte variants
+    shapes = [
+        (["a", "c", "abcd"], "abcd\nxabcdx\nac\n"),
+        (["a", "abab"], "abab\nxababab\n"),
+        (["ab", "cd", "abxcd", "x"], "abxcd\nabcd\n"),
+        (["aa", "a", "aaaa", "b"], "aaaab\nbaaaa\n"),
+        (["あ", "う", "あいう"], "あいう\nxあいうx\n"),
+        (["ab", "bc", "cd", "abcde", "e"], "abcde\nabcd\n"),
+    ]
+    for pats, text in shapes:
+        for fl in ("c", "cn", ""):
+            cases.append(CliCase(f"clis{k}", fl, None, "\n".join(pats).encode(), text.encode(), [], True))
+            k += 1
     # pattern list assembly and errors
     cases.append(CliCase(f"clif{k}", "", b"ab\n\nbc\n", b"x\n\ny", b"ab\nx\nq\n", [], True)); k += 1
     cases.append(CliCase(f"clif{k}", "c", b"ab\r\nbc", None, b"abc\n", [], True)); k += 1
